@@ -1,4 +1,4 @@
-#!/usr/bin/env python3
+#!/venv/bin/python
 """Validate a seeded mutation and record it under /verif/seeded/<id>/.
 usage: tools/seed.py <seed-id> <property> <patch.diff> <demo.py> [--checks C01,C03] [--seeds 1,2] [--notes notes.md]
 Steps (all in a scratch worktree of /repo HEAD, removed afterwards):
@@ -16,7 +16,10 @@ tree = tempfile.mkdtemp(prefix="seedtree_", dir="/dev/shm")
 os.rmdir(tree)
 sh = lambda *c, **k: subprocess.run(c, capture_output=True, text=True, **k)
 assert sh("git", "-C", "/repo", "worktree", "add", "-q", "--detach", tree, "HEAD").returncode == 0
-shadow = "/tmp/proto/shadow"
+sys.path.insert(0, V)
+from vp import env as _env
+shadow_root = tempfile.mkdtemp(prefix="seedshadow_", dir="/dev/shm")
+shadow = _env.make_shadow_dist(shadow_root)
 env = dict(os.environ, PYTHONPATH=f"{tree}:{shadow}")
 meta = {"id": a.sid, "property": a.prop, "needs": a.needs, "ran": []}
 try:
@@ -50,6 +53,7 @@ try:
     meta["caught_by"] = sorted({k.split("@")[0] for k, v in verdicts.items() if v["exit"] == 1})
 finally:
     sh("git", "-C", "/repo", "worktree", "remove", "--force", tree)
+    shutil.rmtree(shadow_root, ignore_errors=True)
     # mutant runs overwrite evidence files: restore the committed ones
     sh("git", "-C", V, "checkout", "--", "evidence")
 if meta.get("confirmed"):
